@@ -380,6 +380,52 @@ Proof.
   apply qnormalize_unit. exact H1.
 Qed.
 
+(** ** the exits of the outer loop of [bubble_dew] and the construction of its result
+    One entry per outer iteration: (err_out of that iteration, is_trivial_solution(state1, state2) after it).
+    The code tests triviality after EVERY iteration, before the convergence test. *)
+Inductive bd_outcome := BdConverged (step : Q * bool) | BdTrivial | BdNotConverged.
+Fixpoint bd_outer (tol : Q) (steps : list (Q * bool)) : bd_outcome :=
+  match steps with
+  | [] => BdNotConverged
+  | s :: r => if snd s then BdTrivial else if Qlt_b (fst s) tol then BdConverged s else bd_outer tol r
+  end.
+
+(** a result is only returned from an iteration after which the phases were NOT a trivial solution (and whose
+    error is below the tolerance) — whatever the size of the error in that or any earlier iteration *)
+Theorem bd_outer_nontrivial tol steps s : bd_outer tol steps = BdConverged s ->
+  In s steps /\ snd s = false /\ fst s < tol.
+Proof.
+  induction steps as [|a r IH]; cbn [bd_outer]; [discriminate|].
+  destruct (snd a) eqn:Ht; [discriminate|].
+  destruct (Qlt_b (fst a) tol) eqn:El.
+  - intros H. injection H as <-. split; [left; reflexivity|]. split; [exact Ht|apply Qlt_b_true; exact El].
+  - intros H. destruct (IH H) as (Hin & H1 & H2). split; [right; exact Hin|]. split; assumption.
+Qed.
+
+(** ... and every earlier iteration was non-trivial as well *)
+Theorem bd_outer_all_nontrivial tol steps s : bd_outer tol steps = BdConverged s ->
+  exists pre post, steps = pre ++ s :: post /\ Forall (fun q => snd q = false) pre.
+Proof.
+  induction steps as [|a r IH]; cbn [bd_outer]; [discriminate|].
+  destruct (snd a) eqn:Ht; [discriminate|].
+  destruct (Qlt_b (fst a) tol) eqn:El.
+  - intros H. injection H as <-. exists [], r. split; [reflexivity|constructor].
+  - intros H. destruct (IH H) as (pre & post & -> & Hpre). exists (a :: pre), post. split; [reflexivity|].
+    constructor; assumption.
+Qed.
+
+(** the result array [vapor(), liquid()]: a bubble point puts the specified phase (state1) into liquid(), a dew
+    point into vapor() — independently of the densities of the two phases (liquid-liquid equilibria included) *)
+Definition bd_result {A : Type} (bubble : bool) (state1 state2 : A) : A * A :=
+  if bubble then (state2, state1) else (state1, state2).
+Theorem bd_result_spec_slot {A : Type} (bubble : bool) (state1 state2 : A) :
+  (bubble = true -> snd (bd_result bubble state1 state2) = state1) /\
+  (bubble = false -> fst (bd_result bubble state1 state2) = state1).
+Proof. split; intros ->; reflexivity. Qed.
+
+Example bd_outer_example : bd_outer (1 # 10) [(1, false); ((1 # 100), true)] = BdTrivial.
+Proof. reflexivity. Qed.
+
 (** execution for the correspondence run: the mole fractions of state1 after every event, scaled by 2^70 *)
 Definition spec_case := (list (Z * Z) * list bd_event)%type.
 Fixpoint bd_trace (s : bd_state) (evs : list bd_event) : list (list Z) :=
